@@ -87,6 +87,14 @@ def run_core(ctx, mode):
     tf2 = ctx.drive("core", rc, hashseeds=hashseeds, opts={"snaps": True})
     ctx.validate(tf2, {c["id"]: c for c in rc}, driver="core", opts={"snaps": True})
     (_count_nontrivial_pre if mode == "pre" else _count_nontrivial_eff)(tf2, ctx)
+    # chained histories: successors of successors over multi-action typed domains (facts added by one
+    # action are tested / deleted by another with differently typed parameters)
+    import gen_hist
+    hc = [gen_hist.gen_case(ctx.seed, 40000 + i, n_ops=16) for i in range(120 if quick else 2500)]
+    for c in hc:
+        c["weights"] = "chain"
+    tf3 = ctx.drive("hist", hc, hashseeds=hashseeds)
+    ctx.validate(tf3, {c["id"]: c for c in hc}, driver="hist")
     h = json.loads(open(tf2).readline())
     ctx.sample({"engine": "V", "history_id": h["id"], "text": h.get("text", "")[-500:],
                 "events": [e["c"] for e in h["ev"]][:12]})
